@@ -16,19 +16,19 @@ CLAIMED = {
  "C13": ("model_checking", "TLC model checking (AskOnlyDemandedMissing, NoAskAfterRefusal, UnreadNotRequired) + trace validation of every prompt + solve/write-back/solve histories through the real command",
          "TLC checks the prompt discipline on all schedules; each real prompt must be for an unmet input of the specification's tracker with needed_by equal to the registered waiters, never after a refusal; asked inputs judged against the program (the quoted lines really stop at that input).", "6/C13"),
  "C02": ("exploration", "TLC evaluates Lines.tla: equations generated from the instruction text of the bundled official templates (plus cited hand transcriptions) on every explored solution",
-         "About 90 equations per year are generated at check time from the line instructions printed in the bundled IRS templates (add / subtract with floor / multiply by rate / smaller of / carry from schedule), matched to lines by the line number in the label, not through the program's PDF mappings; about 70 more per year are cited hand transcriptions (worksheets, status look-ups, NC forms with wording quoted from the bundled NC PDFs). Every equation is evaluated by TLC in integer cents on the stored, rounded lines of every explored real solution; carries taken from another line of the source form than the instruction names are detected from the trace's reads.", "6/C02"),
+         "About 90 equations per year are generated at check time from the line instructions printed in the bundled IRS templates (add / subtract with floor / multiply by rate / smaller of / carry from schedule), matched to lines by the line number in the label, not through the program's PDF mappings; about 160 more per year are cited hand transcriptions (worksheets, status look-ups, Forms 8606 / 8889 / 8959, Schedule A entries, NC forms with wording quoted from the bundled NC PDFs); answers are visible to the rules as pseudo-lines, so lines that copy an amount the filer enters are judged too. Every equation is evaluated by TLC in integer cents on the stored, rounded lines of every explored real solution; carries taken from another line of the source form than the instruction names are detected from the trace's reads.", "6/C02"),
  "C07": ("exploration", "TLC evaluates TaxSchedule.tla (Rev. Proc. brackets, table-row geometry, midpoint rule; limb arithmetic above 32 bits) on observations of figure_tax()",
          "figure_tax() is swept (thorough: every whole-dollar income below $100,000 for 5 statuses x 3 years; every row and bracket boundary with one-cent neighbours; seeded incomes up to $1e12) and every observation is judged by TLC against an oracle written from the Revenue Procedures, independent of the program's hand-entered tables.", "6/C07"),
  "C08": ("translation_validation", "constants harvested from every bound line definition by forced execution per filing status; TLC compares them with the Official table of Statutory.tla",
          "Exhaustive over every (year, bound line, filing status) triple: the statutory-looking constants a line compares with, combines with, looks up or returns on any syntactic path must be exactly the published amounts (Rev. Proc. / instructions / NC D-401) transcribed in Statutory.tla; covers threshold tables and inline if/elif chains alike.", "6/C08"),
  "C09": ("exploration", "TLC evaluates Gates.tla (frozen gate catalogue) on the trace summary of every explored run; gates flipped one at a time in solved base returns",
-         "For every catalogued gate input (76, drafted by forced execution and reviewed) read by a solved explored return, the return is re-solved with the gate affirmative (plus gate-directed amount variants); the invariant 'solved => no affirmative gate read by a non-exempt line, no exceeded limit' is evaluated by TLC on the reads of every run.", "6/C09"),
+         "For every catalogued gate input (76, drafted by forced execution and reviewed) read by a solved explored return, the return is re-solved with the gate affirmative (plus gate-directed amount variants, and every yes/no answer that a line reading the gate also consulted inverted one at a time); seven amount limits (foreign tax, Schedule B rows, HSA limit, Roth distribution above basis, Archer MSA, non-cash gifts without Form 8283, educator expenses) are judged from the inputs on directed returns; the invariant 'solved => no affirmative gate read by a non-exempt line, no exceeded limit' is evaluated by TLC on the reads of every run.", "6/C09"),
  "C10": ("translation_validation", "forced execution of every line definition along all syntactic paths; TLC runs the solver's resolution protocol (Catalogue.tla over SolverCore) on every reference",
          "Every line definition of every form and allowed instance in the three years is executed along its syntactic paths with mock accessors (branch outcomes forced both ways); each reference found (input, line, form, threshold, enumeration member, helper) is resolved by TLC with the solver's own AddForm/ApplyFinal/LoadSpec operators and must end resolved or in 'unsupported' for a deliberately absent form; attribute/name/key errors on any path are violations.", "6/C10"),
  "C15": ("exploration", "TLC evaluates Balance.tla (balance equations, exclusivity, sign constraints) on every solved explored return",
          "Seeded scenario exploration of the shipped forms (3 years, all statuses, with and without NC); every solved return's numeric lines in integer cents are judged by the TLA+ formulas of Balance.tla.", "6/C15"),
- "C16": ("exploration", "TLC evaluates Metamorphic.tla on pairs of solved explored returns (renumbering permutations, wage / withholding / deduction increments)",
-         "For every solved explored return all permutations of payer-form copies and sampled increments are re-solved by the real solver and each pair is judged by the TLA+ relations of Metamorphic.tla.", "6/C16"),
+ "C16": ("exploration", "TLC evaluates Metamorphic.tla on pairs of solved explored returns (renumbering permutations, wage / federal and N.C. withholding / deduction increments)",
+         "For every solved explored return all permutations of payer-form copies and sampled increments (wages, federal tax withheld wherever it is entered, N.C. tax withheld on every payer form, deductible expenses) are re-solved by the real solver and each pair is judged by the TLA+ relations of Metamorphic.tla.", "6/C16"),
  "C17": ("translation_validation", "TLC evaluates CatalogueFacts.tla on introspected catalogue facts, real Form.threshold() look-ups and the parsed output of list-forms / list-form-inputs",
          "Exhaustive over every (year, form class, allowed instance) and every (status-keyed threshold table, filing status) pair: instantiation, declared year, unique names, metadata, name hygiene; the Lookup operator of the specification must give exactly one value per status and the real Form.threshold() must return it; the list-form-inputs template, un-commented, must parse back to exactly the declared inputs.", "6/C17"),
  "C20": ("model_checking", "TLC model checking of Session.tla (write-back in finally, every interruption point and kind, second session) + real CLI sessions judged by SessionTrace.tla",
@@ -42,7 +42,7 @@ CLAIMED = {
  "C12": ("exploration", "TLC evaluates FieldType.tla (StoreResult, rounding, blank convention, mirroring) on real TypedField.value() outcomes and on every value stored by explored returns",
          "Every (line type, decimal places) x every kind of Python value a definition may return goes through the real TypedField.value(); expected TypeError naming the line / empty value / rounded value per the specification; all values stored by explored real returns are checked for exact declared type and rounding; input-only forms' input-to-line type mirroring is checked exhaustively. Readers seeing the rounded stored value is enforced by SolverTrace.tla on every validated trace.", "6/C12"),
  "C18": ("translation_validation", "TLC evaluates PdfMap.tla on all mappings against field trees parsed from the bundled templates (XFA packets / AcroForm dictionaries)",
-         "Exhaustive over all 1665 mappings (1245 IRS, 420 NC) of all forms and years: target exists; where the template's accessibility text (IRS) or field name (NC) carries a line number the mapped line is that line; check-box export values, length limits and choice lists agree with the template; no field driven twice; exclusive check-box groups have at most one box on for every value of the driving line (real pdf_field.value() called for each); every fileable form has a template and mappings; every mapped line exists.", "6/C18"),
+         "Exhaustive over all 1665 mappings (1245 IRS, 420 NC) of all forms and years: target exists; where the template's accessibility text (IRS) or field name (NC) carries a line number the mapped line is that line; a box in row N of a template table is driven by a line of entry N; check-box export values, length limits and choice lists agree with the template; no field driven twice; exclusive check-box groups have at most one box on for every value of the driving line (real pdf_field.value() called for each); every fileable form has a template and mappings; every mapped line exists.", "6/C18"),
 }
 
 NOTES = {
